@@ -10,7 +10,7 @@ GROUPS = [
  _p("rpdo_rx", "CORPdoRx/COSyncRx", 2, _PDO, {"C13": "quick", "C01": "quick"}),
  _p("rpdo_check", "CORPdoCheck", 3, _PDO, {"C13": "quick", "C01": "quick"}),
  _p("tpdo_tmr_inhibit", "COTPdoTmrInhibit", 5, _PDO, {"C12": "quick", "C01": "quick"}),
- _p("tpdo_tmr_event", "COTPdoTmrEvent", 6, _PDO, {"C12": "quick", "C01": "quick"}),
+ _p("tpdo_tmr_event", "COTPdoTmrEvent", 6, _PDO, {"C12": "quick", "C01": "quick", "C10": "quick"}),   # C10: no stale timer id survives (a stale id deletes a foreign timer, e.g. the heartbeat producer's)
  _p("sync_tpdo", "COSyncUpdate/COSyncHandler", 7, _PDO, {"C12": "quick", "C16": "quick", "C01": "quick"}),
  _p("sync_update", "COSyncUpdate", 8, _PDO, {"C16": "quick", "C01": "quick"}),
  _p("rpdo_getmap", "CORPdoGetMap", 9, _PDO, {"C14": "quick", "C13": "quick", "C01": "quick"}, defs=["VW_OP=9", "VW_MAPN_MAX=3"], unwind_all=9, unwind={"CORPdoGetMap.1": 4, "CORPdoGetMap.0": 8},
